@@ -1,53 +1,148 @@
 /- Helper lemmas for the media-type part of C13 (KinModel/C13Media.lean). -/
 import KinModel.C13Media
 import KinModel.Lemmas.C13Stream
+import KinModel.Lemmas.C13Body
 namespace KinModel.C13.Media
 open Stream Body
 
 /-- `bodyOutcome` in stages -/
-theorem bodyOutcome_eq (c : Ctx) (declared : List (String × Option S)) (header : String)
-    (parse : Bytes → Option J) (text : Bytes → J) (enc : J → Bytes) (data : Bytes) :
-    bodyOutcome c declared header parse text enc data =
+theorem bodyOutcome_eq (c : Ctx) (declared : List (String × Option S)) (header : String) (cd : Codec) (data : Bytes) :
+    bodyOutcome c declared header cd data =
       (if declared.isEmpty then .accept
        else match contentGet (declared.map (·.1)) header with
         | none => .reject
         | some key =>
           match schemaOf key declared with
           | some (some s) =>
-            (match decoded header parse text data with
+            (match decoded header cd data with
              | none => .reject
-             | some v => (match visit c s v with | none => .reject | some v' => finish c header enc v v'))
+             | some v => (match visit c s v with | none => .reject | some v' => finish c header cd (touched c s v) v'))
           | _ => .accept) := by
   rfl
 
-theorem specOutcome_eq (c : Ctx) (declared : List (String × Option S)) (header : String)
-    (parse : Bytes → Option J) (text : Bytes → J) (enc : J → Bytes) (data : Bytes) :
-    specOutcome c declared header parse text enc data =
+theorem specOutcome_eq (c : Ctx) (declared : List (String × Option S)) (header : String) (cd : Codec) (data : Bytes) :
+    specOutcome c declared header cd data =
       (if declared.isEmpty then .accept
        else match contentGet (declared.map (·.1)) header with
         | none => .reject
         | some key =>
           match schemaOf key declared with
           | some (some s) =>
-            (match decoded header parse text data with
+            (match decoded header cd data with
              | none => .reject
-             | some v => (match visit c s v with | none => .reject | some v' => finishSpec c enc v v'))
+             | some v => (match specVisit c s v with | none => .reject | some v' => finishSpec c cd v v'))
           | _ => .accept) := by
   rfl
 
-theorem noBodyEncoder_eq (c : Ctx) (declared : List (String × Option S)) (header : String)
-    (parse : Bytes → Option J) (text : Bytes → J) (data : Bytes) :
-    NoBodyEncoder c declared header parse text data =
+theorem noBodyEncoder_eq (c : Ctx) (declared : List (String × Option S)) (header : String) (cd : Codec) (data : Bytes) :
+    NoBodyEncoder c declared header cd data =
       (c.setDefaults && !hasEncoder (base header) &&
        (match contentGet (declared.map (·.1)) header with
         | some key =>
           (match schemaOf key declared with
            | some (some s) =>
-             (match decoded header parse text data with
-              | some v => (match visit c s v with | some v' => !(J.beq v' v) | none => false)
+             (match decoded header cd data with
+              | some v => (match visit c s v with | some _ => touched c s v | none => false)
               | none => false)
            | _ => false)
         | none => false)) := by
   rfl
+
+theorem reencodedUnchanged_eq (c : Ctx) (declared : List (String × Option S)) (header : String) (cd : Codec) (data : Bytes) :
+    ReencodedUnchanged c declared header cd data =
+      (c.setDefaults &&
+       (match contentGet (declared.map (·.1)) header with
+        | some key =>
+          (match schemaOf key declared with
+           | some (some s) =>
+             (match decoded header cd data with
+              | some v => DiscardedCandidateTouches c s v
+              | none => false)
+           | _ => false)
+        | none => false)) := by
+  rfl
+
+theorem schemaOf_wf (key : String) : ∀ (declared : List (String × Option S)) (s : S), declaredWf declared = true →
+    schemaOf key declared = some (some s) → wf s = true
+  | [], _, _, h => by simp [schemaOf] at h
+  | (k, os) :: r, s, hw, h => by
+    simp only [schemaOf] at h
+    split at h
+    · cases h
+      simp only [declaredWf, Bool.and_eq_true] at hw
+      exact hw.1
+    · cases os with
+      | none => exact schemaOf_wf key r s (by simpa [declaredWf] using hw) h
+      | some s' =>
+        simp only [declaredWf, Bool.and_eq_true] at hw
+        exact schemaOf_wf key r s hw.2 h
+
+/-- a scalar string is forwarded as it is (so a text/plain body is never rewritten) -/
+def strKept (v v' : J) : Prop := ∀ t, v = .str t → v' = v
+
+theorem relOK_strKept (c : Ctx) : RelOK c strKept where
+  refl _ _ _ := rfl
+  trans a b d h1 h2 t ht := by rw [h2 t (by rw [h1 t ht, ht]), h1 t ht]
+  arr _ _ _ t ht := by cases ht
+  set _ _ _ _ _ _ t ht := by cases ht
+  pre _ _ _ _ _ _ t ht := by cases ht
+
+theorem visit_str (c : Ctx) (s : S) (t : String) (v' : J) (h : visit c s (.str t) = some v') : v' = .str t :=
+  visit_rel (relOK_strKept c) s (.str t) v' h t rfl
+
+/-- a string is never an object: nothing is touched -/
+theorem touched_str (c : Ctx) (t : String) : ∀ s, touched c s (.str t) = false := by
+  intro s
+  induction s using S.induct with
+  | leaf a ty => rw [touched_leaf]
+  | obj a req props addl _ => rw [touched.eq_def]
+  | arr a items _ => rw [touched.eq_def]
+  | comb a k bs ih =>
+    rw [touched_comb]
+    simp only [J.isNull, Bool.false_eq_true, ↓reduceIte]
+    have h1 : ∀ (l : List S), (∀ b ∈ l, touched c b (.str t) = false) → touchedEach c l (.str t) = false := by
+      intro l; induction l with
+      | nil => intro _; rfl
+      | cons b r ihr => intro h; simp [touchedEach, h b (by simp), ihr (fun b' hb => h b' (by simp [hb]))]
+    have h2 : ∀ (l : List S), (∀ b ∈ l, touched c b (.str t) = false) → touchedUntilMatch c l (.str t) = false := by
+      intro l; induction l with
+      | nil => intro _; rfl
+      | cons b r ihr =>
+        intro h
+        simp only [touchedUntilMatch, h b (by simp), Bool.false_or]
+        split
+        · rfl
+        · exact ihr (fun b' hb => h b' (by simp [hb]))
+    have h3 : ∀ (l : List S), (∀ b ∈ l, touched c b (.str t) = false) → touchedChain c l (.str t) = false := by
+      intro l; induction l with
+      | nil => intro _; rfl
+      | cons b r ihr =>
+        intro h
+        simp only [touchedChain, h b (by simp), Bool.false_or]
+        cases hv : visit c b (.str t) with
+        | none => rfl
+        | some v1 => simp only; rw [visit_str c b t v1 hv]; exact ihr (fun b' hb => h b' (by simp [hb]))
+    cases k with
+    | oneOf => exact h1 bs ih
+    | anyOf => exact h2 bs ih
+    | allOf => exact h3 bs ih
+
+theorem J.beq_refl : ∀ (a : J), J.beq a a = true := by
+  intro a
+  refine J.rec (motive_1 := fun a => J.beq a a = true)
+    (motive_2 := fun xs => J.beqList xs xs = true)
+    (motive_3 := fun kvs => J.beqKvs kvs kvs = true)
+    (motive_4 := fun p => J.beq p.2 p.2 = true) ?_ ?_ ?_ ?_ ?_ ?_ ?_ ?_ ?_ ?_ ?_ a
+  · simp [J.beq]
+  · intro b; simp [J.beq]
+  · intro n; simp [J.beq]
+  · intro t; simp [J.beq]
+  · intro xs ih; simpa [J.beq] using ih
+  · intro kvs ih; simpa [J.beq] using ih
+  · simp [J.beqList]
+  · intro x xs h1 h2; simp [J.beqList, h1, h2]
+  · simp [J.beqKvs]
+  · intro p r h1 h2; obtain ⟨k, x⟩ := p; simp [J.beqKvs, h2]; exact h1
+  · intro k x ih; exact ih
 
 end KinModel.C13.Media
